@@ -6,9 +6,11 @@
 #include <cstdarg>
 #include <cstdio>
 #include <cstring>
+#include <cstdlib>
 #include <string>
 #include <vector>
 #include <map>
+#include <algorithm>
 
 namespace vf {
 
@@ -87,7 +89,13 @@ static inline std::string hex(const uint8_t *p, size_t n) {
 	return s;
 }
 
-struct Tier { bool thorough; };
+// Known findings are excluded by construction in the generators (and counted); the orchestrator
+// switches the exclusion off (VF_NO_EXCLUDE=1) only while replaying the witness of a known finding.
+static inline bool exclusions_on() {
+	static int v = -1;
+	if (v < 0) v = getenv("VF_NO_EXCLUDE") ? 0 : 1;
+	return v != 0;
+}
 
 } // namespace vf
 
